@@ -63,6 +63,14 @@ def anchored_hash():
     return hashlib.blake2b(txt.encode(), digest_size=6).hexdigest()
 
 
+def tie(ctx, what, detail=""):
+    """ctx.tie_broken, at most 3 times per kind (further ones are counted in the evidence)"""
+    seen = ctx.extra.setdefault("broken_ties", {})
+    seen[what] = seen.get(what, 0) + 1
+    if seen[what] <= 3:
+        ctx.tie_broken(what, detail)
+
+
 # ------------------------------------------------------------------ addresses
 
 KEYS = [b"path", b"abstract", b"guid", b"runtime", b"dir", b"tmpdir", b"x y", "ключ".encode(), b"", b"Path", b"path ",
@@ -339,7 +347,9 @@ def judge_hs(uid, sc, cls, S, M):
     all_server = b"".join(b"".join(ch) for ch, _ in sc.steps)
 
     def ok_line(l, word):
-        return l is not None and is_utf8(l) and l.startswith(word)
+        # the text does not say that an answer must be UTF-8 to count as OK; the model (like the code) turns a
+        # non-UTF-8 line into an error - a difference there is reported as a broken tie, not as a violation
+        return l is not None and l.startswith(word)
     if det:
         acc1 = ok_line(l1, b"OK")
         acc2 = ok_line(l2, b"AGREE_UNIX_FD")
@@ -358,9 +368,9 @@ def judge_hs(uid, sc, cls, S, M):
         return "success reported without the complete client conversation on the wire"
     if cls == "ok" and sc.probe and M != "ok":
         return "the message the server sent after BEGIN did not arrive intact (%s)" % M
-    if det and cls == "authfailed" and acc1:
+    if det and cls == "authfailed" and acc1 and is_utf8(l1):
         return "AuthFailed although the server answered OK"
-    if det and cls == "fdfailed" and (not sc.fd or acc2):
+    if det and cls == "fdfailed" and (not sc.fd or (acc2 and is_utf8(l2))):
         return "UnixFdNegotiationFailed although the server agreed"
     return None
 
@@ -412,6 +422,10 @@ def gen_scripts(r, thorough):
         add([K, ([OKL], False), ([AGL[:i], AGL[i:]], False), K], True, tag="cut2")
     for i in range(1, len(RJL)):
         add([K, ([RJL[:i], RJL[i:]], False)], i % 2 == 0, tag="cut2")
+    for l in (b"OK\nx", b"OK\rx", b"\r", b"\n", b"a\r\rb", b"x\n"):
+        data = l + CRLF
+        for i in range(1, len(data)):
+            add([K, ([data[:i], data[i:]], False), ([AGL], False), K], i % 2 == 1, tag="cut2")
     # byte by byte, random k-cuts
     add([K, ([bytes([b]) for b in OKL], False), ([bytes([b]) for b in AGL], False), K], True, tag="bytewise")
     add([K, ([bytes([b]) for b in RJL], False)], False, tag="bytewise")
@@ -608,9 +622,9 @@ def _run(ctx, thorough, exe, drv, work):
     rc_i, out_i, err_i = run_proc([exe], lines, cwd=w.dir, env=env)
     rc_m, out_m, err_m = run_proc([drv], lines)
     if rc_i != 0 or len(out_i) != len(lines) + 1 or not out_i[0].startswith("UID "):
-        ctx.tie_broken("harness c17 crashed or produced short output on the address stream", (err_i or "")[-2000:] + "\n".join(out_i[-3:]))
+        tie(ctx, "harness c17 crashed or produced short output on the address stream", (err_i or "")[-2000:] + "\n".join(out_i[-3:]))
     elif rc_m != 0 or len(out_m) != len(lines):
-        ctx.tie_broken("extracted model driver crashed on the address stream", (err_m or "")[-2000:])
+        tie(ctx, "extracted model driver crashed on the address stream", (err_m or "")[-2000:])
     else:
         lenient = 0
         for inp, li, lm in zip(lines, out_i[1:], out_m):
@@ -632,7 +646,7 @@ def _run(ctx, thorough, exe, drv, work):
                 if why:
                     ctx.violation(why, data)
                 else:
-                    ctx.tie_broken("correspondence: address resolution differs from the model on a string the property does not constrain", str(data))
+                    tie(ctx, "correspondence: address resolution differs from the model on a string the property does not constrain", str(data))
         ctx.extra["addresses_resolved_beyond_the_strict_grammar"] = (
             "%d generated strings that are not k=v,... unix addresses resolve (model and implementation alike): the first path|abstract "
             "pair wins and nothing after it is inspected, e.g. 'unix:abstract=k,garbage' -> abstract 'k', 'unix:abstract=a;tcp:host=h' -> "
@@ -646,7 +660,7 @@ def _run(ctx, thorough, exe, drv, work):
         if len(out_i) == 2 and out_i[1] == "PANIC":
             ctx.violation("get_system_bus_path panicked", {"kind": "sys", "line": "y", "impl": out_i})
         else:
-            ctx.tie_broken("correspondence: get_system_bus_path differs from the model", "impl %s want %s" % (out_i, want))
+            tie(ctx, "correspondence: get_system_bus_path differs from the model", "impl %s want %s" % (out_i, want))
 
     # ---------------------------------------------------------------- utf-8 (the model's stand-in for from_utf8)
     ucases = utf8_cases(thorough)
@@ -654,7 +668,7 @@ def _run(ctx, thorough, exe, drv, work):
     rc_i, out_i, err_i = run_proc([exe], lines, cwd=w.dir, env=env)
     rc_m, out_m, err_m = run_proc([drv], lines)
     if rc_i != 0 or len(out_i) != len(lines) + 1 or rc_m != 0 or len(out_m) != len(lines):
-        ctx.tie_broken("harness or model driver crashed on the utf-8 stream", (err_i or "")[-1000:] + (err_m or "")[-1000:])
+        tie(ctx, "harness or model driver crashed on the utf-8 stream", (err_i or "")[-1000:] + (err_m or "")[-1000:])
     else:
         bad = [(c, a, b) for c, a, b in zip(ucases, out_i[1:], out_m) if a != b]
         ctx.evaluations += len(ucases)
@@ -663,7 +677,7 @@ def _run(ctx, thorough, exe, drv, work):
         ctx.count("utf8:invalid", sum(1 for x in out_m if x == "0"))
         if bad:
             ctx.disagreements_checked += len(bad)
-            ctx.tie_broken("correspondence: utf8_valid (model of std::str::from_utf8) differs from the real function",
+            tie(ctx, "correspondence: utf8_valid (model of std::str::from_utf8) differs from the real function",
                            "; ".join("%s impl=%s model=%s" % (c.hex(), a, b) for c, a, b in bad[:10]))
 
     # ---------------------------------------------------------------- handshakes
@@ -681,30 +695,34 @@ def _run(ctx, thorough, exe, drv, work):
     hs_samples = 0
     dropped_report = []
     uids_done = []
+    hung = False
     for setuid, uid, scs in runs:
+        if hung and setuid is not None:
+            ctx.extra["uids_skipped_after_hang"] = True
+            break
         cmd = [exe] + (["--uid", str(setuid)] if setuid is not None else [])
         hlines = [s.harness_line() for s in scs]
         mlines = [s.model_line(uid) for s in scs] + ["x %d" % uid]
         try:
             rc_i, out_i, err_i = run_proc(cmd, hlines, cwd=work, env=env, timeout=600)
         except subprocess.TimeoutExpired:
-            ctx.tie_broken("harness c17 did not finish the handshake stream (uid %d)" % uid, "")
+            tie(ctx, "harness c17 did not finish the handshake stream (uid %d)" % uid, "")
             continue
         rc_m, out_m, err_m = run_proc([drv], mlines)
         if out_i and out_i[0] == "NOSETUID":
             ctx.extra.setdefault("uids_skipped", []).append(uid)
             continue
         if rc_i != 0 or len(out_i) != len(hlines) + 1 or out_i[0] != "UID %d" % uid:
-            ctx.tie_broken("harness c17 crashed or produced short output on the handshake stream (uid %d)" % uid,
+            tie(ctx, "harness c17 crashed or produced short output on the handshake stream (uid %d)" % uid,
                            (err_i or "")[-2000:] + "\n".join(out_i[:1] + out_i[-2:]))
             continue
         if rc_m != 0 or len(out_m) != len(mlines):
-            ctx.tie_broken("extracted model driver crashed on the handshake stream", (err_m or "")[-2000:])
+            tie(ctx, "extracted model driver crashed on the handshake stream", (err_m or "")[-2000:])
             continue
         uids_done.append(uid)
         # the AUTH argument, computed three ways: model get_uid_as_hex, Python, and what the server received
         if out_m[-1] != hx(uid_hex(uid)):
-            ctx.tie_broken("model get_uid_as_hex differs from hex(str(uid))", "%d: %s" % (uid, out_m[-1]))
+            tie(ctx, "model get_uid_as_hex differs from hex(str(uid))", "%d: %s" % (uid, out_m[-1]))
         for sc, li, lm in zip(scs, out_i[1:], out_m):
             i, m = parse_hs(li), parse_hs(lm)
             det = sc.deterministic()
@@ -716,16 +734,18 @@ def _run(ctx, thorough, exe, drv, work):
             if hs_samples < 5 and sc.tag in ("cutk", "close2", "pipelined", "class1", "probe") and (hs_samples + len(sc.text())) % 3 == 0:
                 hs_samples += 1
                 ctx.samples.append({"uid": uid, "with_fd": sc.fd, "script": sc.text(), "impl": li, "model": lm})
+            if i["cls"] == "hang":
+                hung = True
             if i["cls"] == "skipped":
-                ctx.tie_broken("harness stopped after repeated hangs", sc.harness_line())
+                tie(ctx, "harness stopped after repeated hangs", sc.harness_line())
                 continue
             S = unhx(i["S"])
             data = {"kind": "hs", "uid": uid, "setuid": setuid, "line": sc.harness_line(), "impl": li, "model": lm, "tag": sc.tag}
             if m["cls"] in ("blocked", "panic", "fuel"):
                 if m["cls"] == "blocked":
-                    ctx.tie_broken("generator produced a script on which the model waits for the server", sc.harness_line())
+                    tie(ctx, "generator produced a script on which the model waits for the server", sc.harness_line())
                 else:
-                    ctx.tie_broken("model returned %s" % m["cls"], sc.harness_line())
+                    tie(ctx, "model returned %s" % m["cls"], sc.harness_line())
                 continue
             why = judge_hs(uid, sc, i["cls"], S, i.get("M", "-"))
             if why:
@@ -736,11 +756,11 @@ def _run(ctx, thorough, exe, drv, work):
                 mcls = {"ok": "ok", "authfailed": "authfailed", "fdfailed": "fdfailed", "err": "err"}[m["cls"]]
                 if i["cls"] != mcls or S != unhx(m["S"]):
                     ctx.disagreements_checked += 1
-                    ctx.tie_broken("correspondence: handshake result or client bytes differ from the model "
+                    tie(ctx, "correspondence: handshake result or client bytes differ from the model "
                                    "(the property predicate holds on the implementation's output)", str(data))
             else:
                 if i["cls"] not in ("err", "authfailed", "fdfailed", "ok"):
-                    ctx.tie_broken("unexpected result class", str(data))
+                    tie(ctx, "unexpected result class", str(data))
             if sc.tag == "pipelined" and setuid is None:
                 r1 = unhx(m["L"].split("/")[0]) if m["L"].split("/")[0] != "none" else b""
                 lost = r1[r1.index(CRLF) + 2:] if CRLF in r1 else b""
